@@ -82,6 +82,12 @@ def m_len(interp, args, kwargs):
             return h(interp, v)
     if isinstance(v, SObj):
         return interp.call_method(v, "__len__", [], {})
+    if isinstance(v, Sym) and isinstance(v.kind, (Rec, Atom)):
+        h = interp.pack.models.get("len:" + v.kind.name)
+        if h:
+            return h(interp, v)
+    if getattr(v, "pyvc_len", None) is not None:
+        return v.pyvc_len(interp)
     return ops.seq_len(v)
 
 
